@@ -261,6 +261,9 @@ package olareg
 //@ -- the repository grammar has no empty, "." or ".." elements and no leading separator (every element starts and ends
 //@ -- with [a-z0-9]): a name that matches is a relative path that cannot climb (C16)
 //@ axiom repo-grammar-is-safe: forall s: string :: re_rePath(s) ==> safeRel(s)
+//@ -- a digest has a ':' between algorithm and hex part, the tag grammar has none: no string is both (trusted string fact)
+//@ axiom digest-is-not-empty: !digestOK("")
+//@ axiom digest-is-not-a-tag: forall s: string :: digestOK(s) ==> !re_RefTagRE(s)
 
 //@ -- the constructor: the store it builds gets a configuration that went through SetDefaults (precondition of
 //@ -- NewDir/NewMem, proved); that it establishes ServeHTTP's precondition is NOT proved: the callee write sets are per
